@@ -132,4 +132,362 @@ theorem ij2h_lut (cfg : Cfg) (hbmi : cfg.bmi = false) (d i j : ℕ) (hd : d ≤ 
   exact lut_ij2h_interleave c i j (Nat.lt_of_lt_of_le hi (Nat.pow_le_pow_right (by decide) hcb))
     (Nat.lt_of_lt_of_le hj (Nat.pow_le_pow_right (by decide) hcb))
 
+/-! ## regular case, LUT configuration: complete statement -/
+
+/-- **`hash_with_dxdy_plane`** (LUT curve, regular case): the back end returns a valid cell number which decodes to a
+    cell `(b, i, j)` whose closed diamond contains `(X, Y)` (abscissa modulo 8), offsets in `[0, 1)`, and `sph_coo` of the
+    result un-projects exactly `(X, Y)`. -/
+theorem hash_with_dxdy_plane (cfg : Cfg) (hbmi : cfg.bmi = false) (d : ℕ) (hd : d ≤ 29) (X Y : ℝ) (h : PlaneDom X Y)
+    (h3 : 3 ≤ hbI d X Y + hbJ d X Y) (h5 : hbI d X Y + hbJ d X Y ≤ 5) :
+    ∃ hash b i j dx dy, hashBack (α := ℝ) cfg d (X, Y) = some (hash, dx, dy) ∧ hash < Layer.nHash d ∧
+      Layer.decodeHash cfg d hash = some ⟨b, i, j⟩ ∧ b < 12 ∧ i < 2 ^ d ∧ j < 2 ^ d ∧
+      0 ≤ dx ∧ dx < 1 ∧ 0 ≤ dy ∧ dy < 1 ∧
+      cooPt d b i j dx dy = (X, Y) ∧
+      (InDiamond (cellCx d b i j) (cellCy d b i j) (1 / 2 ^ d) X Y ∨
+        InDiamond (cellCx d b i j) (cellCy d b i j) (1 / 2 ^ d) (X - 8) Y) ∧
+      sphCoo (α := ℝ) cfg d hash dx dy = some (unprojT X Y) ∧ unproj X Y = some (unprojT X Y) := by
+  obtain ⟨hb, _, _, hs⟩ := hb_base d X Y h h3 h5
+  obtain ⟨_, _, _, _, _, _, hi, hj, _⟩ := hb_facts d X Y h
+  obtain ⟨c, hz, hij⟩ := ij2h_lut cfg hbmi d (hbi d X Y) (hbj d X Y) hd hi hj
+  obtain ⟨hval, _, _, _, dx0, dx1, dy0, dy1, _, _, hcoo, hdia⟩ := hash_back_plane cfg d c X Y hz hd h h3 h5
+  obtain ⟨hdec, hlt⟩ := decode_build cfg hbmi d (hbb d X Y) (hbi d X Y) (hbj d X Y) hd (by omega) hi hj
+  rw [hij] at hval
+  obtain ⟨s1, s2⟩ := hash_back_sph_coo cfg d c X Y hz hd h h3 h5 _ _ _ hval (hlt hb) hdec
+  refine ⟨_, _, _, _, _, _, hval, hlt hb, hdec, hb, hi, hj, dx0, dx1, dy0, dy1, hcoo, ?_, s1, s2⟩
+  rcases hs with h0 | h8
+  · left; rw [h0, sub_zero] at hdia; exact hdia
+  · right; rw [h8] at hdia; exact hdia
+
+/-! ## the special branches on the north-cap base cells `q < 4` (finding F11, exact arithmetic) -/
+
+theorem north_base (q : ℕ) (hq : q < 4) : baseX q = 2 * (q : ℝ) + 1 ∧ baseY q = 1 ∧ sqOf q = (q + 1, 4 - q) := by
+  interval_cases q <;> (unfold baseX baseY sqOf; norm_num)
+
+theorem floor_exact (d m : ℕ) (u : ℝ) (h : u = 2 ^ d * (m : ℝ)) : ⌊u⌋₊ = 2 ^ d * m := by
+  have : (2 : ℝ) ^ d * m = ((2 ^ d * m : ℕ) : ℝ) := by push_cast; ring
+  rw [h, this, Nat.floor_natCast]
+
+theorem or_assoc_interleave (A mi mj i j : ℕ) :
+    (A ||| interleave mi mj) ||| interleave i j = A ||| interleave (mi ||| i) (mj ||| j) := by
+  rw [Nat.or_assoc, interleave_or]
+
+theorem small_masks : ∀ q, q < 4 → ((q + 2 + 2) % 256) &&& 3 = q ∧ ((q + 1 + 255) % 256) &&& 3 = q ∧
+    ((q + 1 + 2) % 256) &&& 3 = (q + 3) % 4 ∧ q + 2 - 2 = q := by
+  intro q hq; interval_cases q <;> decide
+
+theorem cast_pow_sub_one (d : ℕ) : ((2 ^ d - 1 : ℕ) : ℝ) = 2 ^ d - 1 := by
+  have : 1 ≤ 2 ^ d := Nat.one_le_two_pow
+  push_cast [Nat.cast_sub this]; ring
+
+theorem pow_sub_one_lt (d : ℕ) : 2 ^ d - 1 < 2 ^ d := by
+  have : 1 ≤ 2 ^ d := Nat.one_le_two_pow
+  omega
+
+/-- **north-east border of a north-cap base cell** (`X + Y = Xb + Yb + 1`, pole excluded: the seam `lon = (q+1)·π/2`
+    seen from base cell `q`): branch `k = −1`.  The returned cell `(q, n−1, j)` is the right one (its closed diamond
+    contains the point, on its north-east side), but the returned offset along `x` is `0` where the position of the
+    point in that cell is `1`. -/
+theorem f11_north_east (cfg : Cfg) (hbmi : cfg.bmi = false) (d : ℕ) (hd : d ≤ 29) (q : ℕ) (hq : q < 4) (X Y : ℝ)
+    (hX0 : 0 ≤ X) (hX8 : X < 8) (hin : InDiamond (baseX q) (baseY q) 1 X Y)
+    (hNE : X + Y = baseX q + baseY q + 1) (hNW : Y - X ≠ baseY q - baseX q + 1) :
+    ∃ hash j dy, hashBack (α := ℝ) cfg d (X, Y) = some (hash, 0, dy) ∧ hash < Layer.nHash d ∧
+      Layer.decodeHash cfg d hash = some ⟨q, 2 ^ d - 1, j⟩ ∧ j < 2 ^ d ∧ 0 ≤ dy ∧ dy < 1 ∧
+      cellCx d q (2 ^ d - 1) j + (1 - dy) / 2 ^ d = X ∧ cellCy d q (2 ^ d - 1) j + (1 + dy - 1) / 2 ^ d = Y ∧
+      InDiamond (cellCx d q (2 ^ d - 1) j) (cellCy d q (2 ^ d - 1) j) (1 / 2 ^ d) X Y := by
+  have hp := pow_pos' d
+  obtain ⟨bX, bY, hsq⟩ := north_base q hq
+  obtain ⟨hdom, eI, eJ⟩ := inBase_branch d q X Y (by omega) hX0 hX8 hin
+  rw [if_pos hNE, hsq] at eI
+  rw [if_neg hNW, hsq, Nat.add_zero] at eJ
+  simp only at eI eJ
+  obtain ⟨_, ev, _, _, dy0, dy1, _, hj, _⟩ := hb_facts d X Y hdom
+  -- `u` is an exact multiple of `n`
+  have hu : uOf d X Y = 2 ^ d * ((q + 2 : ℕ) : ℝ) := by
+    unfold uOf; rw [hNE, bX, bY]; push_cast; ring
+  have hfl := floor_exact d (q + 2) _ hu
+  have hi0 : hbi d X Y = 0 := by unfold hbi; rw [hfl, Nat.mul_mod_right]
+  have hdx0 : hbdx d X Y = 0 := by unfold hbdx; rw [hfl, hu]; push_cast; ring
+  obtain ⟨c, hz, hij⟩ := ij2h_lut cfg hbmi d 0 (hbj d X Y) hd (Nat.pos_of_ne_zero (by simp)) hj
+  obtain ⟨mx, _, _⟩ := masks_interleave d hd
+  obtain ⟨m1, _, _, _⟩ := small_masks q hq
+  have hval := hb_hash_km1 cfg d c X Y hz hd hdom (by rw [eI, eJ]; omega)
+  rw [hdx0, if_neg (not_lt.mpr dy0), hi0, hij, eI, m1, mx, or_assoc_interleave, Nat.or_zero, Nat.zero_or] at hval
+  obtain ⟨hdec, hlt⟩ := decode_build cfg hbmi d q (2 ^ d - 1) (hbj d X Y) hd (by omega) (pow_sub_one_lt d) hj
+  -- geometry with the true offsets `(1, dy)`
+  have eJr : ((hbJ d X Y : ℕ) : ℝ) = 4 - q := by
+    rw [eJ]; have : q ≤ 4 := by omega
+    push_cast [Nat.cast_sub this]; ring
+  obtain ⟨ex, ey⟩ := coo_recover (2 ^ d) X Y ((q : ℝ) + 1) (4 - q) (2 ^ d - 1) (hbj d X Y) 1 (hbdy d X Y)
+    (baseX q) (baseY q) 0 hp
+    (by have : (X + Y + 1) * 2 ^ d / 2 = uOf d X Y := rfl
+        rw [this, hu]; push_cast; ring)
+    (by have : (Y - X + 9) * 2 ^ d / 2 = vOf d X Y := rfl
+        rw [this, ev, eJr])
+    (by rw [bX]; ring) (by rw [bY]; ring)
+  have ex' : cellCx d q (2 ^ d - 1) (hbj d X Y) + (1 - hbdy d X Y) / 2 ^ d = X := by
+    unfold cellCx; rw [cast_pow_sub_one]; linarith
+  have ey' : cellCy d q (2 ^ d - 1) (hbj d X Y) + (1 + hbdy d X Y - 1) / 2 ^ d = Y := by
+    unfold cellCy; rw [cast_pow_sub_one]; linarith
+  exact ⟨_, _, _, hval, hlt (by omega), hdec, hj, dy0, dy1, ex', ey',
+    inDiamond_of _ _ _ _ _ _ _ hp ex' ey' (by norm_num) (by norm_num) dy0 dy1.le⟩
+
+theorem no_int_inverse (N : ℝ) (K : ℤ) (hN : 2 ≤ N) (h : N * (K : ℝ) = 1) : False := by
+  rcases le_or_gt K 0 with hk | hk
+  · have h1 : (K : ℝ) ≤ 0 := by exact_mod_cast hk
+    have := mul_nonpos_of_nonneg_of_nonpos (by linarith : (0 : ℝ) ≤ N) h1
+    linarith
+  · have h1 : (1 : ℝ) ≤ (K : ℝ) := by exact_mod_cast hk
+    have := mul_le_mul hN h1 (by norm_num) (by linarith)
+    linarith
+
+/-- common facts on the north-west border `Y − X = Yb − Xb + 1` of the north-cap base cell `q` (pole excluded) -/
+theorem nw_facts (d : ℕ) (q : ℕ) (hq : q < 4) (X Y : ℝ) (hX0 : 0 ≤ X) (hX8 : X < 8)
+    (hin : InDiamond (baseX q) (baseY q) 1 X Y)
+    (hNE : X + Y ≠ baseX q + baseY q + 1) (hNW : Y - X = baseY q - baseX q + 1) :
+    PlaneDom X Y ∧ hbI d X Y = q + 1 ∧ hbJ d X Y = 5 - q ∧ hbj d X Y = 0 ∧ hbdy d X Y = 0 ∧
+    vOf d X Y = 2 ^ d * (5 - (q : ℝ)) ∧ uOf d X Y = 2 ^ d * ((q : ℝ) + 1) + hbi d X Y + hbdx d X Y := by
+  obtain ⟨bX, bY, hsq⟩ := north_base q hq
+  obtain ⟨hdom, eI, eJ⟩ := inBase_branch d q X Y (by omega) hX0 hX8 hin
+  rw [if_neg hNE, hsq, Nat.add_zero] at eI
+  rw [if_pos hNW, hsq] at eJ
+  simp only at eI eJ
+  obtain ⟨eu, _, _, _, _, _, _, _, _⟩ := hb_facts d X Y hdom
+  have hq5 : ((5 - q : ℕ) : ℝ) = 5 - q := by
+    have : q ≤ 5 := by omega
+    push_cast [Nat.cast_sub this]; ring
+  have hv : vOf d X Y = 2 ^ d * ((5 - q : ℕ) : ℝ) := by
+    rw [hq5]; unfold vOf; rw [hNW, bX, bY]; ring
+  have hfl := floor_exact d (5 - q) _ hv
+  refine ⟨hdom, eI, by rw [eJ]; omega, ?_, ?_, by rw [hv, hq5], ?_⟩
+  · unfold hbj; rw [hfl, Nat.mul_mod_right]
+  · unfold hbdy; rw [hfl, hv]; push_cast; ring
+  · rw [eu, eI]; push_cast; ring
+
+/-- **north-west border of a north-cap base cell** (`Y − X = Yb − Xb + 1`: the seam `lon = q·π/2` seen from base cell
+    `q`), at a point whose scaled coordinate `u` is **not** an integer: branch `k = −1`, first alternative.  The returned
+    cell `(q, i, n−1)` is the right one, but the returned offset along `y` is `0` where the position of the point in
+    that cell is `1`. -/
+theorem f11_north_west_pos (cfg : Cfg) (hbmi : cfg.bmi = false) (d : ℕ) (hd : d ≤ 29) (q : ℕ) (hq : q < 4) (X Y : ℝ)
+    (hX0 : 0 ≤ X) (hX8 : X < 8) (hin : InDiamond (baseX q) (baseY q) 1 X Y)
+    (hNE : X + Y ≠ baseX q + baseY q + 1) (hNW : Y - X = baseY q - baseX q + 1) (hfrac : 0 < hbdx d X Y) :
+    ∃ hash i dx, hashBack (α := ℝ) cfg d (X, Y) = some (hash, dx, 0) ∧ hash < Layer.nHash d ∧
+      Layer.decodeHash cfg d hash = some ⟨q, i, 2 ^ d - 1⟩ ∧ i < 2 ^ d ∧ 0 < dx ∧ dx < 1 ∧
+      cellCx d q i (2 ^ d - 1) + (dx - 1) / 2 ^ d = X ∧ cellCy d q i (2 ^ d - 1) + (dx + 1 - 1) / 2 ^ d = Y ∧
+      InDiamond (cellCx d q i (2 ^ d - 1)) (cellCy d q i (2 ^ d - 1)) (1 / 2 ^ d) X Y := by
+  have hp := pow_pos' d
+  obtain ⟨bX, bY, hsq⟩ := north_base q hq
+  obtain ⟨hdom, eI, eJ, hj0, hdy0, hv, hu⟩ := nw_facts d q hq X Y hX0 hX8 hin hNE hNW
+  obtain ⟨_, _, dx0, dx1, _, _, hi, _, _⟩ := hb_facts d X Y hdom
+  obtain ⟨c, hz, hij⟩ := ij2h_lut cfg hbmi d (hbi d X Y) 0 hd hi (Nat.pos_of_ne_zero (by simp))
+  obtain ⟨_, my, _⟩ := masks_interleave d hd
+  obtain ⟨_, m2, _, _⟩ := small_masks q hq
+  have hval := hb_hash_km1 cfg d c X Y hz hd hdom (by rw [eI, eJ]; omega)
+  rw [hdy0, if_pos hfrac, hj0, hij, eI, m2, my, or_assoc_interleave, Nat.or_zero, Nat.zero_or] at hval
+  obtain ⟨hdec, hlt⟩ := decode_build cfg hbmi d q (hbi d X Y) (2 ^ d - 1) hd (by omega) hi (pow_sub_one_lt d)
+  obtain ⟨ex, ey⟩ := coo_recover (2 ^ d) X Y ((q : ℝ) + 1) (4 - q) (hbi d X Y) (2 ^ d - 1) (hbdx d X Y) 1
+    (baseX q) (baseY q) 0 hp
+    (by have : (X + Y + 1) * 2 ^ d / 2 = uOf d X Y := rfl
+        rw [this, hu])
+    (by have : (Y - X + 9) * 2 ^ d / 2 = vOf d X Y := rfl
+        rw [this, hv]; ring)
+    (by rw [bX]; ring) (by rw [bY]; ring)
+  have ex' : cellCx d q (hbi d X Y) (2 ^ d - 1) + (hbdx d X Y - 1) / 2 ^ d = X := by
+    unfold cellCx; rw [cast_pow_sub_one]; linarith
+  have ey' : cellCy d q (hbi d X Y) (2 ^ d - 1) + (hbdx d X Y + 1 - 1) / 2 ^ d = Y := by
+    unfold cellCy; rw [cast_pow_sub_one]; linarith
+  exact ⟨_, _, _, hval, hlt (by omega), hdec, hi, hfrac, dx1, ex', ey',
+    inDiamond_of _ _ _ _ _ _ _ hp ex' ey' dx0 dx1.le (by norm_num) (by norm_num)⟩
+
+/-- **the wrong cell of F11.**  North-west border of the north-cap base cell `q` (seam `lon = q·π/2`), at a point whose
+    scaled coordinate `u` **is** an integer (a vertex of a cell of depth `d` on that seam): both sub-cell offsets are `0`,
+    the comparison `dx > dy` of the branch `k = −1` fails, and the code answers the cell `((q+3) mod 4, n−1, 0)` — the
+    easternmost cell of the previous base cell — with offsets `(0, 0)`.  The point is the north vertex of the cell
+    `(q, i, n−1)` (position `(0, 1)` in it).  Unless it is the west vertex of base cell `q` (`i = 0`), it does **not**
+    belong to the closed diamond of the returned cell, whatever multiple of 8 is added to the abscissa. -/
+theorem f11_north_west_wrong_cell (cfg : Cfg) (hbmi : cfg.bmi = false) (d : ℕ) (hd : d ≤ 29) (q : ℕ) (hq : q < 4)
+    (X Y : ℝ) (hX0 : 0 ≤ X) (hX8 : X < 8) (hin : InDiamond (baseX q) (baseY q) 1 X Y)
+    (hNE : X + Y ≠ baseX q + baseY q + 1) (hNW : Y - X = baseY q - baseX q + 1) (hfrac : hbdx d X Y = 0) :
+    ∃ hash : ℕ, ∃ i : ℕ, hashBack (α := ℝ) cfg d (X, Y) = some (hash, 0, 0) ∧
+      hash = ((q + 3) % 4) <<< (d <<< 1) ||| interleave (2 ^ d - 1) 0 ∧ hash < Layer.nHash d ∧
+      Layer.decodeHash cfg d hash = some ⟨(q + 3) % 4, 2 ^ d - 1, 0⟩ ∧ i < 2 ^ d ∧
+      -- where the point really is: the north vertex of `(q, i, n−1)`
+      X = 2 * (q : ℝ) + (i : ℝ) / 2 ^ d ∧ Y = 1 + (i : ℝ) / 2 ^ d ∧
+      cellCx d q i (2 ^ d - 1) + (0 - 1) / 2 ^ d = X ∧ cellCy d q i (2 ^ d - 1) + (0 + 1 - 1) / 2 ^ d = Y ∧
+      -- the returned cell does not contain it
+      (0 < i → ∀ m : ℤ, ¬ InDiamond (cellCx d ((q + 3) % 4) (2 ^ d - 1) 0 + 8 * m) (cellCy d ((q + 3) % 4) (2 ^ d - 1) 0)
+        (1 / 2 ^ d) X Y) := by
+  have hp := pow_pos' d
+  obtain ⟨bX, bY, hsq⟩ := north_base q hq
+  obtain ⟨hdom, eI, eJ, hj0, hdy0, hv, hu⟩ := nw_facts d q hq X Y hX0 hX8 hin hNE hNW
+  obtain ⟨_, _, _, _, _, _, hi, _, _⟩ := hb_facts d X Y hdom
+  obtain ⟨c, hz, hij⟩ := ij2h_lut cfg hbmi d (hbi d X Y) 0 hd hi (Nat.pos_of_ne_zero (by simp))
+  obtain ⟨mx, _, _⟩ := masks_interleave d hd
+  obtain ⟨_, _, m3, _⟩ := small_masks q hq
+  have hval := hb_hash_km1 cfg d c X Y hz hd hdom (by rw [eI, eJ]; omega)
+  rw [hdy0, hfrac, if_neg (lt_irrefl 0), hj0, hij, eI, m3, mx, or_assoc_interleave, Nat.or_zero,
+    or_pow_sub_one _ d hi] at hval
+  have hb' : (q + 3) % 4 < 4 := Nat.mod_lt _ (by decide)
+  obtain ⟨hdec, hlt⟩ := decode_build cfg hbmi d ((q + 3) % 4) (2 ^ d - 1) 0 hd (by omega) (pow_sub_one_lt d)
+    (Nat.pos_of_ne_zero (by simp))
+  obtain ⟨ex, ey⟩ := coo_recover (2 ^ d) X Y ((q : ℝ) + 1) (4 - q) (hbi d X Y) (2 ^ d - 1) 0 1
+    (baseX q) (baseY q) 0 hp
+    (by have : (X + Y + 1) * 2 ^ d / 2 = uOf d X Y := rfl
+        rw [this, hu, hfrac])
+    (by have : (Y - X + 9) * 2 ^ d / 2 = vOf d X Y := rfl
+        rw [this, hv]; ring)
+    (by rw [bX]; ring) (by rw [bY]; ring)
+  have ex' : cellCx d q (hbi d X Y) (2 ^ d - 1) + (0 - 1) / 2 ^ d = X := by
+    unfold cellCx; rw [cast_pow_sub_one]; linarith
+  have ey' : cellCy d q (hbi d X Y) (2 ^ d - 1) + (0 + 1 - 1) / 2 ^ d = Y := by
+    unfold cellCy; rw [cast_pow_sub_one]; linarith
+  have hX : X = 2 * (q : ℝ) + (hbi d X Y : ℝ) / 2 ^ d := by
+    have e : ((hbi d X Y : ℝ) - (2 ^ d - 1)) / 2 ^ d + (0 - 1) / 2 ^ d = (hbi d X Y : ℝ) / 2 ^ d - 1 := by
+      field_simp; ring
+    rw [bX] at ex; linarith
+  have hY : Y = 1 + (hbi d X Y : ℝ) / 2 ^ d := by
+    have e : ((hbi d X Y : ℝ) + (2 ^ d - 1) + 1 - 2 ^ d) / 2 ^ d + (0 + 1 - 1) / 2 ^ d = (hbi d X Y : ℝ) / 2 ^ d := by
+      field_simp; ring
+    rw [bY] at ey; linarith
+  refine ⟨_, hbi d X Y, hval, rfl, hlt (by omega), hdec, hi, hX, hY, ex', ey', ?_⟩
+  intro hipos m hcon
+  obtain ⟨bX', bY', _⟩ := north_base ((q + 3) % 4) hb'
+  unfold InDiamond cellCx cellCy at hcon
+  rw [bX', bY', cast_pow_sub_one] at hcon
+  set b' := (q + 3) % 4 with hb'def
+  set i := hbi d X Y with hidef
+  have hi1 : (1 : ℝ) ≤ i := by exact_mod_cast hipos
+  have hiN : (i : ℝ) + 1 ≤ 2 ^ d := by
+    have : i + 1 ≤ 2 ^ d := hi
+    exact_mod_cast this
+  have e2 : Y - (1 + (((2 : ℝ) ^ d - 1) + ((0 : ℕ) : ℝ) + 1 - 2 ^ d) / 2 ^ d) = (i : ℝ) / 2 ^ d := by
+    rw [hY]; push_cast; field_simp; ring
+  rw [e2, abs_of_nonneg (by positivity : (0 : ℝ) ≤ (i : ℝ) / 2 ^ d)] at hcon
+  have hge : (1 : ℝ) / 2 ^ d ≤ (i : ℝ) / 2 ^ d := by
+    rw [div_le_div_iff_of_pos_right hp]; exact hi1
+  have habs0 := abs_nonneg (X - (2 * (b' : ℝ) + 1 + (((2 : ℝ) ^ d - 1) - ((0 : ℕ) : ℝ)) / 2 ^ d + 8 * (m : ℝ)))
+  have hA : |X - (2 * (b' : ℝ) + 1 + (((2 : ℝ) ^ d - 1) - ((0 : ℕ) : ℝ)) / 2 ^ d + 8 * (m : ℝ))| = 0 := by linarith
+  have hi_eq : (i : ℝ) / 2 ^ d = 1 / 2 ^ d := by linarith
+  have hi_one : (i : ℝ) = 1 := by
+    rw [div_left_inj' (ne_of_gt hp)] at hi_eq; exact hi_eq
+  have hA0 := abs_eq_zero.mp hA
+  -- `2 / n` would be an even integer
+  rw [hX, hi_one] at hA0
+  have hK : (2 : ℝ) ^ d * (((b' : ℤ) + 1 + 4 * m - (q : ℤ) : ℤ) : ℝ) = 1 := by
+    push_cast
+    have h1 : (2 : ℝ) * (q : ℝ) + 1 / 2 ^ d - (2 * (b' : ℝ) + 1 + (((2 : ℝ) ^ d - 1) - ((0 : ℕ) : ℝ)) / 2 ^ d + 8 * (m : ℝ)) = 0 :=
+      hA0
+    field_simp at h1
+    push_cast at h1
+    linarith
+  have hN2 : (2 : ℝ) ≤ 2 ^ d := by linarith
+  exact no_int_inverse _ _ hN2 hK
+
+/-- **north pole** (`(X, Y) = (2q+1, 2)`, north vertex of the north-cap base cell `q`): branch `k = −2`.  The returned
+    cell `(q, n−1, n−1)` is the right one, but the returned offsets are `(0, 0)` where the position of the point in
+    that cell is `(1, 1)`. -/
+theorem f11_north_pole (cfg : Cfg) (hbmi : cfg.bmi = false) (d : ℕ) (hd : d ≤ 29) (q : ℕ) (hq : q < 4) :
+    ∃ hash, hashBack (α := ℝ) cfg d (2 * (q : ℝ) + 1, 2) = some (hash, 0, 0) ∧ hash < Layer.nHash d ∧
+      Layer.decodeHash cfg d hash = some ⟨q, 2 ^ d - 1, 2 ^ d - 1⟩ ∧
+      cellCx d q (2 ^ d - 1) (2 ^ d - 1) + (1 - 1) / 2 ^ d = 2 * (q : ℝ) + 1 ∧
+      cellCy d q (2 ^ d - 1) (2 ^ d - 1) + (1 + 1 - 1) / 2 ^ d = 2 := by
+  have hp := pow_pos' d
+  obtain ⟨bX, bY, hsq⟩ := north_base q hq
+  have hq0 : (0 : ℝ) ≤ q := Nat.cast_nonneg q
+  have hq3 : (q : ℝ) ≤ 3 := by
+    have : q ≤ 3 := by omega
+    exact_mod_cast this
+  have hin : InDiamond (baseX q) (baseY q) 1 (2 * (q : ℝ) + 1) 2 := by
+    unfold InDiamond; rw [bX, bY]; norm_num
+  obtain ⟨hdom, eI, eJ⟩ := inBase_branch d q _ _ (by omega) (by linarith) (by linarith) hin
+  rw [if_pos (by rw [bX, bY]; ring), hsq] at eI
+  rw [if_pos (by rw [bX, bY]; ring), hsq] at eJ
+  simp only at eI eJ
+  have hu : uOf d (2 * (q : ℝ) + 1) 2 = 2 ^ d * ((q + 2 : ℕ) : ℝ) := by unfold uOf; push_cast; ring
+  have hq5 : ((5 - q : ℕ) : ℝ) = 5 - q := by
+    have : q ≤ 5 := by omega
+    push_cast [Nat.cast_sub this]; ring
+  have hv : vOf d (2 * (q : ℝ) + 1) 2 = 2 ^ d * ((5 - q : ℕ) : ℝ) := by rw [hq5]; unfold vOf; ring
+  have hflu := floor_exact d (q + 2) _ hu
+  have hflv := floor_exact d (5 - q) _ hv
+  have hi0 : hbi d (2 * (q : ℝ) + 1) 2 = 0 := by unfold hbi; rw [hflu, Nat.mul_mod_right]
+  have hj0 : hbj d (2 * (q : ℝ) + 1) 2 = 0 := by unfold hbj; rw [hflv, Nat.mul_mod_right]
+  have hdx0 : hbdx d (2 * (q : ℝ) + 1) 2 = 0 := by unfold hbdx; rw [hflu, hu]; push_cast; ring
+  have hdy0 : hbdy d (2 * (q : ℝ) + 1) 2 = 0 := by unfold hbdy; rw [hflv, hv]; push_cast; ring
+  obtain ⟨c, hz, hij⟩ := ij2h_lut cfg hbmi d 0 0 hd (Nat.pos_of_ne_zero (by simp)) (Nat.pos_of_ne_zero (by simp))
+  obtain ⟨_, _, mxy⟩ := masks_interleave d hd
+  obtain ⟨_, _, _, m4⟩ := small_masks q hq
+  have hval := hb_hash_km2 cfg d c _ _ hz hd hdom (by rw [eI, eJ]; omega) (by rw [eI]; omega)
+  rw [hdx0, hdy0, hi0, hj0, hij, eI, m4, mxy, or_assoc_interleave, Nat.or_zero] at hval
+  obtain ⟨hdec, hlt⟩ := decode_build cfg hbmi d q (2 ^ d - 1) (2 ^ d - 1) hd (by omega) (pow_sub_one_lt d)
+    (pow_sub_one_lt d)
+  refine ⟨_, hval, hlt (by omega), hdec, ?_, ?_⟩
+  · unfold cellCx; rw [bX, cast_pow_sub_one]; ring
+  · unfold cellCy; rw [bY, cast_pow_sub_one]; field_simp; ring
+
+/-- the west vertex `(2q, 1)` of the north-cap base cell `q` (where it meets the previous north-cap base cell and two
+    equatorial ones): the cell `((q+3) mod 4, n−1, 0)` returned by the code has this point as its east vertex (abscissa
+    modulo 8), position `(1, 0)` in it; the returned offsets are `(0, 0)` -/
+theorem f11_west_vertex (d q : ℕ) (hq : q < 4) :
+    cellCx d ((q + 3) % 4) (2 ^ d - 1) 0 + (1 - 0) / 2 ^ d = 2 * (q : ℝ) + (if q = 0 then 8 else 0) ∧
+    cellCy d ((q + 3) % 4) (2 ^ d - 1) 0 + (1 + 0 - 1) / 2 ^ d = 1 := by
+  have hp := pow_pos' d
+  obtain ⟨bX', bY', _⟩ := north_base ((q + 3) % 4) (Nat.mod_lt _ (by decide))
+  unfold cellCx cellCy
+  rw [bX', bY', cast_pow_sub_one]
+  constructor
+  · have : (2 : ℝ) * (((q + 3) % 4 : ℕ) : ℝ) + 2 = 2 * (q : ℝ) + (if q = 0 then 8 else 0) := by
+      interval_cases q <;> norm_num
+    rw [← this]; field_simp; ring
+  · field_simp; ring
+
+/-! ## from the back end to `hash_with_dxdy` -/
+
+theorem hashBack_norm8 (cfg : Cfg) (d : ℕ) (X Y : ℝ) (hX : -8 ≤ X) :
+    hashBack (α := ℝ) cfg d (X, Y) = hashBack (α := ℝ) cfg d (norm8 X, Y) := by
+  have h0 : 0 ≤ norm8 X := by unfold norm8; split_ifs <;> linarith
+  unfold hashBack
+  simp only [r_ensures, norm8_of_nonneg _ h0]
+
+/-- `hash_with_dxdy` is the back end applied to the projected point, abscissa reduced to `[0, 8)` -/
+theorem hashWithDxDy_of_proj (cfg : Cfg) (d : ℕ) (lon lat X Y : ℝ) (hproj : proj (α := ℝ) lon lat = some (X, Y))
+    (hX : -8 ≤ X) : hashWithDxDy (α := ℝ) cfg d lon lat = hashBack (α := ℝ) cfg d (norm8 X, Y) := by
+  rw [hashWithDxDy_eq, hproj, Option.bind_some, hashBack_norm8 cfg d X Y hX]
+
+/-! ## examples -/
+
+/-- **counter-example (finding F11, exact arithmetic).**  Depth 1, plane point `(1/2, 3/2)` — the image of
+    `lon = 0`, `sin lat = 11/12`, on the north-west border of base cell 0.  The code answers the cell number 13 =
+    `(3, 1, 0)` with offsets `(0, 0)`; the point is the north vertex of the cell 3 = `(0, 1, 1)` and is not in the closed
+    diamond of the cell 13, whatever multiple of 8 is added to the abscissa.  (The `Float` model returns the same
+    `(13, 0, 0)` on `(0.0, asin(11/12))`.) -/
+example : hashBack (α := ℝ) {} 1 (1 / 2, 3 / 2) = some (13, 0, 0) ∧ Layer.decodeHash {} 1 13 = some ⟨3, 1, 0⟩ ∧
+    cooPt 1 0 1 1 0 1 = (1 / 2, 3 / 2) ∧
+    ∀ m : ℤ, ¬ InDiamond (cellCx 1 3 1 0 + 8 * m) (cellCy 1 3 1 0) (1 / 2 ^ 1) (1 / 2) (3 / 2) := by
+  have hin : InDiamond (baseX 0) (baseY 0) 1 (1 / 2) (3 / 2) := by
+    unfold InDiamond baseX baseY; norm_num [abs_of_nonneg, abs_of_nonpos]
+  have hfrac : hbdx 1 (1 / 2) (3 / 2) = 0 := by
+    unfold hbdx
+    have : uOf 1 (1 / 2) (3 / 2) = ((3 : ℕ) : ℝ) := by unfold uOf; norm_num
+    rw [this, Nat.floor_natCast]; norm_num
+  obtain ⟨hash, i, hval, hh, _, hdec, _, hX, _, _, _, hwrong⟩ :=
+    f11_north_west_wrong_cell {} rfl 1 (by decide) 0 (by decide) (1 / 2) (3 / 2) (by norm_num) (by norm_num) hin
+      (by unfold baseX baseY; norm_num) (by unfold baseX baseY; norm_num) hfrac
+  have hi1 : i = 1 := by
+    have : (i : ℝ) = 1 := by norm_num at hX; linarith
+    exact_mod_cast this
+  have h13 : hash = 13 := by rw [hh]; decide +kernel
+  subst h13
+  refine ⟨hval, by decide +kernel, ?_, fun m => hwrong (by omega) m⟩
+  unfold cooPt cellCx cellCy baseX baseY norm8
+  norm_num
+
+#print axioms hash_with_dxdy_plane
+#print axioms f11_north_east
+#print axioms f11_north_west_pos
+#print axioms f11_north_west_wrong_cell
+#print axioms f11_north_pole
+#print axioms f11_west_vertex
+#print axioms hashWithDxDy_of_proj
+#print axioms decode_build
+
 end Hpx.CellReal
